@@ -427,6 +427,38 @@ fn run_on<T: Ut + DbType<ValueType = T>, S: StorageData>(db: &mut DbImpl<S>, ctx
             Err(_) => ctx.fail("type-roundtrip-panic", T::NAME, T::KNOWN, format!("search db={} panicked", variant)),
         }
     }
+    // ---- the single-element form: select().element::<T>().search() must apply the same element id condition (limit 1):
+    // the first element OF THIS TYPE in id order, whatever other elements come first
+    if !live.is_empty() && T::db_element_id().is_some() {
+        let q = QueryBuilder::select().element::<T>().search().elements().query();
+        let first = live.iter().map(|x| x.0).min().unwrap();
+        match catch_unwind(AssertUnwindSafe(|| db.exec(q))) {
+            Ok(Ok(r)) => {
+                ctx.evaluations += 1;
+                ctx.bump("op:select-element-search-single");
+                if r.ids() != vec![first] {
+                    ctx.fail("type-roundtrip-mismatch", T::NAME, T::KNOWN, format!("db={} select().element::<T>().search().elements() returned ids {:?}, the first element of the type is {:?} ({} foreign elements)", variant, r.ids(), first, foreign));
+                } else {
+                    match catch_unwind(AssertUnwindSafe(|| -> Result<T, DbError> {
+                        let mut l: Vec<T> = r.clone().try_into()?;
+                        l.pop().ok_or_else(|| DbError::db(DbErrorType::NotFound, "no element"))
+                    })) {
+                        Ok(Ok(b)) => {
+                            if let Some((_, v)) = live.iter().find(|x| x.0 == first) {
+                                let mut d = vec![];
+                                v.diff(&b, &mut d);
+                                if !d.is_empty() { ctx.fail("type-roundtrip-mismatch", T::NAME, T::KNOWN, format!("single-element search db={} id={} fields=[{}] value={:?} read={:?}", variant, first.0, d.join("; "), v, b)); }
+                            }
+                        }
+                        Ok(Err(e)) => ctx.fail("type-roundtrip-error", T::NAME, T::KNOWN, format!("single-element search db={} conversion failed: {}", variant, errs(&e))),
+                        Err(_) => ctx.fail("type-roundtrip-panic", T::NAME, T::KNOWN, format!("single-element search db={} conversion panicked", variant)),
+                    }
+                }
+            }
+            Ok(Err(e)) => ctx.fail("type-roundtrip-error", T::NAME, T::KNOWN, format!("single-element search db={} failed: {}", variant, errs(&e))),
+            Err(_) => ctx.fail("type-roundtrip-panic", T::NAME, T::KNOWN, format!("single-element search db={} panicked", variant)),
+        }
+    }
     if live.len() >= 3 { ctx.nontrivial += 1; }
 }
 
